@@ -97,6 +97,7 @@ func (e *Engine) runPath(h *Harness, prefix []int, solver *Solver, concrete *Mod
 			}
 		}()
 		c.callSSA(nil, token.NoPos, h.fn, nil, nil)
+		c.runPendingGo()
 	}()
 	return pr
 }
